@@ -26,6 +26,7 @@ LEVEL_TEXT = ('Bounded-exhaustive: for every supported constructor of the bundle
 LEVEL_NOTE = ('trusted: mc/ref/tl.py (own schema parser, ids pinned against TON\'s generated headers for dht.ping, tonNode.blockIdExt, adnl.message.query, '
               'liteServer.getMasterchainInfo, liteServer.query; TL string framing pinned on the classic 253/254 vectors)')
 TECHNIQUE = 'deviation-bounded exhaustive enumeration of TL values for every bundled constructor against an independent TL reference codec'
+RULE += ' Nested objects in bytes fields include a constructor without fields (4 bytes: the id alone) and one nested a level deeper.'
 ASSUMPTIONS = ['value conventions of the library API are taken as given: objects are dicts with @type, int128/int256 are hex text of the wire bytes, Bool is a Python bool, '
                'a bytes field may hold a nested object',
                'out of scope (the library does not support these field types): double, object/function, the tonlib dialect (vector<T>, int53, secureBytes, ...)']
